@@ -114,7 +114,10 @@ example : analyze (.agg "count_values" .by_ ["a", "b"] (some (.str "a")) (.sel "
   one-to-one vector matching `on (L)` / `ignoring (L)` (arithmetic, comparison filters, `and`,
   `unless`, `or`), many-to-one matching with `group_left (inc)` / `group_right (inc)`,
   `histogram_quantile`, `label_replace` / `label_join` (dynamic labels), range functions over matrix
-  selectors and functions over subqueries (evaluation over time-indexed inputs), nested to any depth.  `FExpr.toExpr` is what the analyzer sees, `FExpr.toV` what the engine
+  selectors and functions over subqueries (evaluation over time-indexed inputs), selecting
+  aggregations (`topk`, `bottomk`, `limitk`, `limit_ratio`: any rule `keep` that picks members of
+  the group) and `count_values` (one output per distinct value, the value written to a label),
+  nested to any depth.  `FExpr.toExpr` is what the analyzer sees, `FExpr.toV` what the engine
   computes (spec-level semantics at one timestamp, `eval`). -/
 
 /-- abstract form: if no node changes the shard of a series, evaluating on each shard and
@@ -211,6 +214,25 @@ theorem C44_fragment_full_false_by :
   revert this
   decide
 
+/-- F44b: the `count_values` fix (`eaea30e3e`) is necessary — with the analyzer as it was
+    (`analyzeWith false`: the label written by `count_values` is not treated as dynamic),
+    `sum by (a) (count_values without () ("a", m0))` is sharded by `a` although `count_values`
+    overwrites `a`: two series with the same value land in different shards and the outer sum
+    comes out as two partial results `{a="5"} = 1` instead of `{a="5"} = 2`. -/
+private def cq : FExpr := .aggBy "sum" ["a"] List.sum (.countValues false [] "a" (.sel "m0" fun _ => true))
+private def cS : Vec := [([("__name__", "m0"), ("a", "1")], 5), ([("__name__", "m0"), ("a", "2")], 5)]
+private def cHash : Labels → Nat := fun l => if l = [("a", "1")] then 0 else 1
+
+theorem C44_countValues_unfixed_false :
+    analyzeWith false cq.toExpr = ⟨some ["a"], true⟩ ∧ NameSafe ["a"] true ∧
+    isShardable (analyze cq.toExpr) = false ∧
+    ¬ ((shardIndices 2).flatMap fun i => eval cq.toV (shardInput cHash 2 i ["a"] true fun _ => cS) 0).Perm
+      (eval cq.toV (fun _ => cS) 0) := by
+  refine ⟨by decide, by simp [NameSafe], by decide, fun h => ?_⟩
+  have := h.length_eq
+  revert this
+  decide
+
 -- non-vacuity of C44_sound: a nested by-aggregation that the analyzer shards by `a`
 example : analyze (FExpr.aggBy "max" ["a"] (fun _ => 0) (.fn "abs" true some (.aggBy "sum" ["a", "b"] List.sum (.sel "m0" fun _ => true)))).toExpr
     = ⟨some ["a"], true⟩ := by decide
@@ -234,6 +256,13 @@ example : analyze (FExpr.binMany "*" true ["a"] ["pod"] true (fun x y => some (x
 -- max_over_time((sum by (a) (rate(m0[1m])))[10m:1m]) is sharded by a
 example : analyze (FExpr.subq "max_over_time" "10m:1m" true (fun t => [t - 60, t]) (fun _ => 0)
       (.aggBy "sum" ["a"] List.sum (.rangeFn "rate" "m0" "1m" (fun _ => true) true (fun t => [t - 60, t]) (fun _ => 0)))).toExpr
+    = ⟨some ["a"], true⟩ := by decide
+-- topk by (a) (2, m0) and count_values by (a) ("v", m0) are sharded by a
+example : analyze (FExpr.aggSel "topk" true ["a"] "2" (fun _ _ => true) (.sel "m0" fun _ => true)).toExpr
+    = ⟨some ["a"], true⟩ := by decide
+example : analyze (FExpr.countValues true ["a"] "v" (.sel "m0" fun _ => true)).toExpr = ⟨some ["a"], true⟩ := by decide
+-- sum by (a, v) (count_values by (a, b) ("v", m0)): the written label `v` is not hashed
+example : analyze (FExpr.aggBy "sum" ["a", "v"] List.sum (.countValues true ["a", "b"] "v" (.sel "m0" fun _ => true))).toExpr
     = ⟨some ["a"], true⟩ := by decide
 -- … and a without-query made safe by an explicit `__name__`
 example : analyze (FExpr.aggWithout "sum" ["a", "__name__"] List.sum (.sel "m0" fun _ => true)).toExpr = ⟨some ["a", "__name__"], false⟩ := by decide
